@@ -28,6 +28,15 @@ for meta in sorted(glob.glob('/tmp/seed_out/c*/m*/meta.json')):
     m2['checks_run'] = {c: {'0': 'passed (MISSED)', '1': 'VIOLATION reported (CAUGHT)', '2': 'inconclusive'}.get(rc, rc) for c, rc in checks.items()}
     m2['detected'] = bool(caught)
     m2['notes'] = r.get('notes', '')
+    old = os.path.join(out, 'meta.json')
+    if os.path.exists(old):
+        try:
+            o = json.load(open(old))
+            for k in ('why_missed', 'caught_by_harness'):
+                if k in o and k not in m2:
+                    m2[k] = o[k]
+        except Exception:
+            pass
     json.dump(m2, open(os.path.join(out, 'meta.json'), 'w'), indent=1)
     rows.append((sid, m.get('property'), 'CAUGHT by ' + ','.join(caught) if caught else 'MISSED', r, m.get('summary', '')))
 for sid, prop, st, r, summ in rows:
